@@ -116,7 +116,7 @@ def _load():
     _loaded = True
     for mod in ("ht_c01",):
         importlib.import_module(mod).define()
-    for extra in ("ht_c02", "ht_c03", "ht_c04", "ht_c06", "ht_c07", "ht_c08", "ht_c09", "ht_c10", "ht_c11", "ht_c12", "ht_c13", "ht_c14", "ht_c17", "ht_c18", "ht_c19"):
+    for extra in ("ht_c02", "ht_c03", "ht_c04", "ht_c06", "ht_c07", "ht_c08", "ht_c09", "ht_c10", "ht_c12", "ht_c13", "ht_c14", "ht_c17", "ht_c18", "ht_c11", "ht_c19"):
         p = os.path.join(os.path.dirname(__file__), extra + ".py")
         if os.path.exists(p):
             importlib.import_module(extra).define()
@@ -141,12 +141,12 @@ def select(prop, tier, seed):
     for e in _ENTRIES:
         if prop not in e["props"]:
             continue
-        t = e["tier"]
+        t = e.get("prop_tier", {}).get(prop, e["tier"])
         if tier == "thorough" or t == "quick":
             out.append(e)
         elif t.startswith("rot"):
             mod = int(t[3:] or 8)
-            if rot_pick(e["name"], seed, mod):
+            if rot_pick(e.get("rot_key", e["name"]), seed, mod):
                 out.append(e)
     return out
 
